@@ -57,34 +57,74 @@ BOUND = (
 # --------------------------------------------------------------------------------------------------------
 # input space
 # --------------------------------------------------------------------------------------------------------
-_DAY0 = _dt.date(2020, 1, 2)
 N_DAYS = 7
-DAYS = [_DAY0 + _dt.timedelta(days=i) for i in range(N_DAYS)]
 _UTC = _dt.timezone.utc
 _OPEN_T = _dt.time(14, 30, 0)
 _CLOSE_T = _dt.time(21, 0, 0)
+# the four instants at the open/close boundaries and the four one hour earlier (where a bar stamped in a
+# daylight-saving local time instead of fixed 14:30/21:00 UTC shows)
 _BOUNDARY_TIMES = [_dt.time(14, 29, 59), _dt.time(14, 30, 0), _dt.time(20, 59, 59), _dt.time(21, 0, 0)]
+_HOUR_EARLY_TIMES = [_dt.time(13, 29, 59), _dt.time(13, 30, 0), _dt.time(19, 59, 59), _dt.time(20, 0, 0)]
+_PROBE_TIMES = _HOUR_EARLY_TIMES + _BOUNDARY_TIMES
+N_INSTANTS = 3 + N_DAYS * len(_PROBE_TIMES)           # 59
+
+# 7-day windows, each given by its BASE DATE (a Thursday, so that lattice days 2 / 3 are Sat / Sun).
+WINTER = "2020-01-02"
+WINDOWS = [
+    (WINTER, "northern winter, US and EU on standard time throughout"),
+    ("2020-07-02", "northern summer, US and EU on daylight-saving time throughout"),
+    ("2021-03-11", "contains Sun 2021-03-14, US clocks go forward (EU still on standard time)"),
+    # one week before the US switch of 2021-11-07: a US-zone stamp is shifted on all 7 days here, an EU-zone
+    # stamp on the first 3 only (a window holding 2021-11-07 instead would be EU-standard throughout)
+    ("2021-10-28", "contains Sun 2021-10-31, EU clocks go back (US still on daylight-saving time)"),
+]
+EXTRA_BASES = [b for b, _ in WINDOWS[1:]]
 
 
 def _mk(date, tm):
     return _dt.datetime.combine(date, tm, tzinfo=_UTC)
 
 
-def _build_instants():
-    out = [_mk(_dt.date(2020, 1, 1), _dt.time(12, 0, 0))]
-    for d in DAYS:
-        for tm in _BOUNDARY_TIMES:
-            out.append(_mk(d, tm))
-    out.append(_mk(_dt.date(2020, 1, 6), _dt.time(0, 0, 0)))
-    out.append(_mk(_dt.date(2020, 1, 9), _dt.time(3, 0, 0)))
-    out.sort()
-    return out
+class _Lattice(object):
+    """The days and query instants of the 7-day window starting at `base` (ISO date string)."""
+
+    def __init__(self, base):
+        self.base = base
+        self.day0 = _dt.date.fromisoformat(base)
+        self.days = [self.day0 + _dt.timedelta(days=i) for i in range(N_DAYS)]
+        out = [_mk(self.day0 - _dt.timedelta(days=1), _dt.time(12, 0, 0))]      # before everything
+        for d in self.days:
+            for tm in _PROBE_TIMES:
+                out.append(_mk(d, tm))
+        out.append(_mk(self.day0 + _dt.timedelta(days=4), _dt.time(0, 0, 0)))   # Sun->Mon midnight
+        out.append(_mk(self.day0 + _dt.timedelta(days=N_DAYS), _dt.time(3, 0, 0)))   # after everything
+        out.sort()
+        assert len(out) == N_INSTANTS and len(set(out)) == N_INSTANTS
+        self.instants = out                                                   # python datetimes (oracle side)
+        self.instant_str = [t.strftime("%Y-%m-%d %H:%M:%S") for t in out]
+        self.ts = [pd.Timestamp(s, tz="UTC") for s in self.instant_str]       # library side
+        self.sample_i = self.instant_str.index(self.days[2].isoformat() + " 14:29:59")
 
 
-INSTANTS = _build_instants()                       # 31 python datetimes (oracle side)
-assert len(INSTANTS) == 31
-INSTANT_STR = [t.strftime("%Y-%m-%d %H:%M:%S") for t in INSTANTS]
-_TS = [pd.Timestamp(s, tz="UTC") for s in INSTANT_STR]   # library side
+_LATTICES = {}
+
+
+def lattice(base=None):
+    base = str(base) if base else WINTER
+    if base not in _LATTICES:
+        _LATTICES[base] = _Lattice(base)
+    return _LATTICES[base]
+
+
+for _b, _ in WINDOWS:
+    assert lattice(_b).day0.weekday() == 3, _b
+_WIN = lattice(WINTER)
+_DAY0, DAYS, INSTANTS, INSTANT_STR, _TS = _WIN.day0, _WIN.days, _WIN.instants, _WIN.instant_str, _WIN.ts
+
+
+def _unit_base(unit):
+    """base date of a unit; cases recorded before the windows existed carry none and mean the winter window"""
+    return unit.get("base") or WINTER
 
 
 def cell_values(asset, day):
@@ -112,12 +152,13 @@ def make_rows(asset, days, masks):
     return rows
 
 
-def csv_text(rows):
-    """The CSV file for rows (in the given order).  High/Low/Volume are always present."""
+def csv_text(rows, lat=None):
+    """The CSV file for rows (in the given order) on the window `lat`.  High/Low/Volume are always present."""
+    lat = lat or _WIN
     lines = ["Date,Open,High,Low,Close,Adj Close,Volume"]
     for d, o, c, a in rows:
         f = lambda x: "" if x is None else repr(float(x))
-        lines.append("%s,%s,%s,%s,%s,%s,%d" % (DAYS[d].isoformat(), f(o), repr(2000.0 + d), repr(1.0 + d),
+        lines.append("%s,%s,%s,%s,%s,%s,%d" % (lat.days[d].isoformat(), f(o), repr(2000.0 + d), repr(1.0 + d),
                                                  f(c), f(a), 1000 + d))
     return "\n".join(lines) + "\n"
 
@@ -125,12 +166,14 @@ def csv_text(rows):
 # --------------------------------------------------------------------------------------------------------
 # the oracle: written from the statement, pure python
 # --------------------------------------------------------------------------------------------------------
-def spec_observations(rows, adjust):
-    """Each bar gives (date 14:30 UTC, Open') and (date 21:00 UTC, Close'); with adjustment Open' =
+def spec_observations(rows, adjust, lat=None):
+    """Each bar gives (date 14:30 UTC, Open') and (date 21:00 UTC, Close') -- on every date of every year,
+    no time zone, no daylight saving; with adjustment Open' =
     Open*AdjClose/Close and Close' = Close*AdjClose/Close = AdjClose.  A value that cannot be formed because
     a needed cell is empty is missing (None).  Sorted by time; a missing value takes the previous
     observation's (already filled) value; if there is none it stays missing.
     Returns [(timestamp, filled value|None, raw value|None)]."""
+    lat = lat or _WIN
     obs = []
     for d, o, c, a in rows:
         if adjust:
@@ -141,8 +184,8 @@ def spec_observations(rows, adjust):
             cv = a                       # Close * (Adj/Close) == Adj Close
         else:
             ov, cv = o, c
-        obs.append((_mk(DAYS[d], _OPEN_T), ov))
-        obs.append((_mk(DAYS[d], _CLOSE_T), cv))
+        obs.append((_mk(lat.days[d], _OPEN_T), ov))
+        obs.append((_mk(lat.days[d], _CLOSE_T), cv))
     obs.sort(key=lambda x: x[0])
     out = []
     prev = None
@@ -153,11 +196,11 @@ def spec_observations(rows, adjust):
     return out
 
 
-def spec_price(rows, adjust, t):
+def spec_price(rows, adjust, t, lat=None):
     """bid(t) == ask(t): value of the latest observation with timestamp <= t, NaN if none (or still missing).
     Returns (value, in_range, raw_missing)."""
     best = None
-    for ts, filled, raw in spec_observations(rows, adjust):
+    for ts, filled, raw in spec_observations(rows, adjust, lat):
         if ts <= t:
             best = (filled, raw)
         else:
@@ -240,6 +283,18 @@ class _Acc(object):
                                              "observed": _j(observed), "expected": _j(expected)}))
 
 
+def _add_sample(samples, s):
+    """at most 6 samples: distinct (bars, empty cells) inside a window, one per extra window, rest winter"""
+    same = [x for x in samples if x.get("base", WINTER) == s["base"]]
+    limit = 6 - len(EXTRA_BASES) if s["base"] == WINTER else (1 if s["base"] in EXTRA_BASES else 0)
+    if len(samples) >= 6 or len(same) >= limit:
+        return False
+    if (s["bars"], s["empty_cells"]) in [(x["bars"], x["empty_cells"]) for x in same]:
+        return False
+    samples.append(s)
+    return True
+
+
 def _write_dir(base, name, files):
     d = os.path.join(base, name)
     os.mkdir(d)
@@ -253,9 +308,9 @@ def _source(path, adjust, symbols=None):
     return CSVDailyBarDataSource(path, "EQ", adjust_prices=adjust, csv_symbols=symbols)
 
 
-def _query_all(src, sym):
-    """first (cold, ascending) pass: [(bid, ask)] for the 31 instants"""
-    return [(_call(src.get_bid, ts, sym), _call(src.get_ask, ts, sym)) for ts in _TS]
+def _query_all(src, sym, lat):
+    """first (cold, ascending) pass: [(bid, ask)] for the 59 instants of the window"""
+    return [(_call(src.get_bid, ts, sym), _call(src.get_ask, ts, sym)) for ts in lat.ts]
 
 
 def _b_dataset(a_first):
@@ -276,9 +331,12 @@ def _unit_size(unit):
 
 
 def eval_unit(unit, acc, base):
-    """unit = {"days": sorted day indices, "mask": [[o,c,a] 0/1 per day], "adjust": bool,
+    """unit = {"base": ISO base date of the 7-day window (absent = winter), "days": sorted day indices,
+               "mask": [[o,c,a] 0/1 per day], "adjust": bool,
                "perms": [non-identity permutations of range(k)], "ext": bool}"""
     days, masks, adjust = unit["days"], unit["mask"], bool(unit["adjust"])
+    lat = lattice(_unit_base(unit))
+    INSTANTS, INSTANT_STR, _TS, NI = lat.instants, lat.instant_str, lat.ts, N_INSTANTS   # of THIS window
     k = len(days)
     size = _unit_size(unit)
     rows = make_rows("A", days, masks)
@@ -286,7 +344,7 @@ def eval_unit(unit, acc, base):
 
     # ---- |S| == 0 : header-only file; no bar, so NaN for every t --------------------------------------
     if k == 0:
-        d = _write_dir(udir, "A", {"A": csv_text([])})
+        d = _write_dir(udir, "A", {"A": csv_text([], lat)})
         try:
             src = _source(d, adjust)
         except Exception as e:
@@ -303,10 +361,10 @@ def eval_unit(unit, acc, base):
         return
 
     bar_days = set(days)
-    spec = [spec_price(rows, adjust, t) for t in INSTANTS]      # (value, in_range, raw_missing)
+    spec = [spec_price(rows, adjust, t, lat) for t in INSTANTS]      # (value, in_range, raw_missing)
 
     def value_checks(ans, order_tag):
-        for i in range(31):
+        for i in range(NI):
             exp, in_range, raw_missing = spec[i]
             b, a = ans[i]
             ok = _eq(b, exp) and _eq(a, exp)
@@ -317,7 +375,7 @@ def eval_unit(unit, acc, base):
                 continue
             acc.check("value-at-latest-observation", ok, size, unit, where, (b, a), (exp, exp))
             t = INSTANTS[i]
-            if (t.date() - _DAY0).days in bar_days and t.time() in _BOUNDARY_TIMES:
+            if (t.date() - lat.day0).days in bar_days and t.time() in _PROBE_TIMES:
                 acc.check("open-close-boundaries", ok, size, unit, where, (b, a), (exp, exp))
             if adjust:
                 acc.check("adjustment", ok, size, unit, where, (b, a), (exp, exp))
@@ -325,18 +383,17 @@ def eval_unit(unit, acc, base):
                 acc.check("missing-cell-ffill", ok, size, unit, where, (b, a), (exp, exp))
 
     # ---- primary file, rows in date order ---------------------------------------------------------------
-    dA = _write_dir(udir, "A", {"A": csv_text(rows)})
+    dA = _write_dir(udir, "A", {"A": csv_text(rows, lat)})
     sA = _source(dA, adjust)
-    ref = _query_all(sA, "EQ:A")
+    ref = _query_all(sA, "EQ:A", lat)
     value_checks(ref, "date")
-    if len(acc.samples) < 6 and (k, size[1]) not in [(s["bars"], s["empty_cells"]) for s in acc.samples]:
-        i = 9 if spec[9][1] else 30
-        acc.samples.append({"bars": k, "empty_cells": size[1], "adjust": adjust, "csv": csv_text(rows),
-                            "t": INSTANT_STR[i], "spec": _j(spec[i][0]), "bid": _j(ref[i][0]),
-                            "ask": _j(ref[i][1])})
+    i = lat.sample_i if spec[lat.sample_i][1] else NI - 1
+    _add_sample(acc.samples, {"base": lat.base, "bars": k, "empty_cells": size[1], "adjust": adjust,
+                              "csv": csv_text(rows, lat), "t": INSTANT_STR[i], "spec": _j(spec[i][0]),
+                              "bid": _j(ref[i][0]), "ask": _j(ref[i][1])})
 
     # cache: descending order, every instant asked twice, must reproduce the cold answers
-    for i in range(30, -1, -1):
+    for i in range(NI - 1, -1, -1):
         for rep in (1, 2):
             b, a = _call(sA.get_bid, _TS[i], "EQ:A"), _call(sA.get_ask, _TS[i], "EQ:A")
             acc.check("cache-transparent", _eq(b, ref[i][0]) and _eq(a, ref[i][1]), size, unit,
@@ -359,12 +416,12 @@ def eval_unit(unit, acc, base):
     # ---- other row orders ---------------------------------------------------------------------------------
     for p in unit.get("perms", []):
         prow = [rows[j] for j in p]
-        dP = _write_dir(udir, "P" + "".join(map(str, p)), {"A": csv_text(prow)})
+        dP = _write_dir(udir, "P" + "".join(map(str, p)), {"A": csv_text(prow, lat)})
         sP = _source(dP, adjust)
-        ans = _query_all(sP, "EQ:A")
+        ans = _query_all(sP, "EQ:A", lat)
         tag = "perm" + "".join(map(str, p))
         value_checks(ans, tag)
-        for i in range(31):
+        for i in range(NI):
             acc.check("row-order-independent", _eq(ans[i][0], ref[i][0]) and _eq(ans[i][1], ref[i][1]), size,
                       unit, {"step": "perm", "order": tag, "t": INSTANT_STR[i]}, ans[i], ref[i])
 
@@ -372,20 +429,20 @@ def eval_unit(unit, acc, base):
         return
 
     # ---- later rows rewritten / removed ------------------------------------------------------------------
-    first_obs = _mk(DAYS[days[0]], _OPEN_T)
+    first_obs = _mk(lat.days[days[0]], _OPEN_T)
     s_alt = None
     for j in range(1, k):
-        cut_t = _mk(DAYS[days[j]], _OPEN_T)          # opening instant of the first later row
+        cut_t = _mk(lat.days[days[j]], _OPEN_T)      # opening instant of the first later row
         later_days = days[j:]
         later_masks = [[1 - x for x in m] for m in masks[j:]]
         rw_rows = rows[:j] + make_rows("ALT", later_days, later_masks)
         variants = [("rewritten", rw_rows), ("removed", rows[:j])]
         for tag, vrows in variants:
-            dV = _write_dir(udir, "%s%d" % (tag, j), {"A": csv_text(vrows)})
+            dV = _write_dir(udir, "%s%d" % (tag, j), {"A": csv_text(vrows, lat)})
             sV = _source(dV, adjust)
             if tag == "rewritten" and j == 1:
                 s_alt = sV
-            for i in range(31):
+            for i in range(NI):
                 if not (first_obs <= INSTANTS[i] < cut_t):
                     continue
                 b, a = _call(sV.get_bid, _TS[i], "EQ:A"), _call(sV.get_ask, _TS[i], "EQ:A")
@@ -395,12 +452,12 @@ def eval_unit(unit, acc, base):
 
     # ---- second asset ----------------------------------------------------------------------------------------
     b_rows, b_file_rows = _b_dataset(days[0])
-    dAB = _write_dir(udir, "AB", {"A": csv_text(rows), "B": csv_text(b_file_rows)})
+    dAB = _write_dir(udir, "AB", {"A": csv_text(rows, lat), "B": csv_text(b_file_rows, lat)})
     sB = _source(dAB, adjust, symbols=["B"])
     sAB = _source(dAB, adjust)
-    refB = _query_all(sB, "EQ:B")
-    specB = [spec_price(b_rows, adjust, t) for t in INSTANTS]
-    for i in range(31):
+    refB = _query_all(sB, "EQ:B", lat)
+    specB = [spec_price(b_rows, adjust, t, lat) for t in INSTANTS]
+    for i in range(NI):
         exp, in_range, _ = specB[i]
         acc.evaluations += 1
         if in_range:
@@ -411,22 +468,22 @@ def eval_unit(unit, acc, base):
                       {"step": "value", "asset": "B", "t": INSTANT_STR[i]}, refB[i], (exp, exp))
     single = {"EQ:A": ref, "EQ:B": refB}
     # cold keys only: A at even instants, B at odd instants
-    for i in range(31):
+    for i in range(NI):
         sym = "EQ:A" if i % 2 == 0 else "EQ:B"
         b, a = _call(sAB.get_bid, _TS[i], sym), _call(sAB.get_ask, _TS[i], sym)
         acc.evaluations += 1
         acc.check("assets-independent", _eq(b, single[sym][i][0]) and _eq(a, single[sym][i][1]), size, unit,
                   {"step": "two-asset", "asset": sym, "t": INSTANT_STR[i]}, (b, a), single[sym][i])
     # an asset the source does not hold must not be answered with another asset's price
-    zb = _call(sA.get_bid, _TS[30], "EQ:B")
+    zb = _call(sA.get_bid, _TS[NI - 1], "EQ:B")
     acc.check("assets-independent", (not _isnum(zb)) or math.isnan(float(zb)), size, unit,
-              {"step": "unknown-asset", "t": INSTANT_STR[30]}, zb, "an exception or nan")
+              {"step": "unknown-asset", "t": INSTANT_STR[NI - 1]}, zb, "an exception or nan")
     # warm keys: same instant twice with the other asset in between, then a later and an earlier instant
     seq = []
-    for i in range(31):
+    for i in range(NI):
         seq += [(i, "EQ:A"), (i, "EQ:B"), (i, "EQ:A")]
         if i % 5 == 0:
-            seq += [(30, "EQ:B"), (0, "EQ:A"), (max(i - 1, 0), "EQ:B")]
+            seq += [(NI - 1, "EQ:B"), (0, "EQ:A"), (max(i - 1, 0), "EQ:B")]
     for n, (i, sym) in enumerate(seq):
         b, a = _call(sAB.get_bid, _TS[i], sym), _call(sAB.get_ask, _TS[i], sym)
         acc.check("cache-transparent", _eq(b, single[sym][i][0]) and _eq(a, single[sym][i][1]), size, unit,
@@ -475,7 +532,8 @@ def _nonid_perms(k):
     return [list(p) for p in itertools.permutations(range(k)) if list(p) != list(range(k))]
 
 
-def thorough_units():
+def winter_units():
+    """the full enumeration, on the winter window"""
     units = []
     for k in range(0, 5):
         for S in itertools.combinations(range(N_DAYS), k):
@@ -491,11 +549,32 @@ def thorough_units():
                     else:
                         perms = _nonid_perms(4) if ne == 0 else []
                     ext = k + ne <= 4
-                    units.append({"days": list(S), "mask": mask, "adjust": adjust, "perms": perms, "ext": ext})
+                    units.append({"base": WINTER, "days": list(S), "mask": mask, "adjust": adjust,
+                                  "perms": perms, "ext": ext})
     return units
 
 
-def _fixed_units():
+def reduced_units(base):
+    """the reduced enumeration of an extra window: 1..2 bars, every day set x every mask x adjust on/off,
+    rows in date order, not extended"""
+    units = []
+    for k in (1, 2):
+        for S in itertools.combinations(range(N_DAYS), k):
+            for mask in _all_masks(k):
+                for adjust in (True, False):
+                    units.append({"base": base, "days": list(S), "mask": mask, "adjust": adjust,
+                                  "perms": [], "ext": False})
+    return units
+
+
+def thorough_units():
+    units = winter_units()
+    for base in EXTRA_BASES:
+        units += _fixed_units(base) + reduced_units(base)
+    return units
+
+
+def _fixed_units(base=WINTER):
     P = [1, 1, 1]
     E = [0, 0, 0]
     data = [   # (days, mask or None, perms or None)
@@ -511,20 +590,40 @@ def _fixed_units():
         ([3, 4, 5], [E, P, P], None),                           # a fully empty first bar
         ([5], [[1, 0, 0]], None),
     ]
-    u = [{"days": [], "mask": [], "adjust": adj, "perms": [], "ext": True} for adj in (True, False)]
+    u = [{"base": base, "days": [], "mask": [], "adjust": adj, "perms": [], "ext": True}
+         for adj in (True, False)]
     for adj in (True, False):
         for i, (days, mask, perms) in enumerate(data):
             k = len(days)
-            u.append({"days": days, "mask": [list(m) for m in (mask or [P] * k)], "adjust": adj,
+            u.append({"base": base, "days": list(days), "mask": [list(m) for m in (mask or [P] * k)],
+                      "adjust": adj,
                       "perms": _nonid_perms(k)[:2] if perms is None else perms,
                       "ext": (i + (0 if adj else 1)) % 2 == 0})     # extended on one of the two adjust twins
     return u
 
 
-def quick_units(seed, n_sample=135):
+N_SAMPLE = 135
+
+
+def _light_fixed_units(base, w):
+    """quick tier, extra window number w (1, 2, ..): each of the 11 non-empty fixed datasets once -- dataset i
+    with adjust on iff i + w is even, its first row permutation only, extended iff i % 4 == w % 4"""
+    out = []
+    for i, un in enumerate(x for x in _fixed_units(base) if x["days"] and x["adjust"]):
+        out.append({"base": base, "days": un["days"], "mask": un["mask"], "adjust": (i + w) % 2 == 0,
+                    "perms": un["perms"][:1], "ext": i % 4 == w % 4})
+    return out
+
+
+def quick_units(seed, n_sample=None):
+    """fixed units of the winter window, fixed units of every extra window, then the seeded winter sample
+    (in this order, so that a budget cut only shortens the sample)"""
+    n_sample = N_SAMPLE if n_sample is None else n_sample
     rng = random.Random(seed)
-    units = _fixed_units()
+    units = _fixed_units(WINTER)
     seen = set(_unit_key(x) for x in units)
+    for w, base in enumerate(EXTRA_BASES, 1):
+        units += _light_fixed_units(base, w)
     n = 0
     while n < n_sample:
         k = rng.choice([1, 2, 2, 3, 3, 3, 4, 4])
@@ -538,7 +637,8 @@ def quick_units(seed, n_sample=135):
         allowed = _nonid_perms(k) if (k <= 2 or (k == 3 and ne <= 2) or (k == 4 and ne == 0)) else []
         perms = [rng.choice(allowed)] if allowed else []
         ext = (k + ne <= 4) and (n % 5 == 0)
-        unit = {"days": S, "mask": mask, "adjust": rng.random() < 0.5, "perms": perms, "ext": ext}
+        unit = {"base": WINTER, "days": S, "mask": mask, "adjust": rng.random() < 0.5, "perms": perms,
+                "ext": ext}
         key = _unit_key(unit)
         if key in seen:
             continue
@@ -549,21 +649,21 @@ def quick_units(seed, n_sample=135):
 
 
 def _unit_key(unit):
-    return (tuple(unit["days"]), tuple(tuple(m) for m in unit["mask"]), bool(unit["adjust"]),
+    return (_unit_base(unit), tuple(unit["days"]), tuple(tuple(m) for m in unit["mask"]), bool(unit["adjust"]),
             tuple(tuple(p) for p in unit.get("perms", [])), bool(unit.get("ext")))
 
 
 def _distinct_cases(units):
-    """distinct (file content incl. row order, adjust flag, query instant) with at least one bar"""
+    """distinct (window, file content incl. row order, adjust flag, query instant) with at least one bar"""
     files = set()
     for un in units:
         if not un["days"]:
             continue
-        base = (tuple(un["days"]), tuple(tuple(m) for m in un["mask"]), bool(un["adjust"]))
+        base = (_unit_base(un), tuple(un["days"]), tuple(tuple(m) for m in un["mask"]), bool(un["adjust"]))
         files.add(base + (tuple(range(len(un["days"]))),))
         for p in un.get("perms", []):
             files.add(base + (tuple(p),))
-    return len(files) * len(INSTANTS)
+    return len(files) * N_INSTANTS
 
 
 # --------------------------------------------------------------------------------------------------------
@@ -612,9 +712,7 @@ def _merge(total, acc):
             per[f[1]["clause"]] = n + 1
     total.failures = kept
     for s in acc.samples:
-        if len(total.samples) < 6 and (s["bars"], s["empty_cells"]) not in \
-                [(x["bars"], x["empty_cells"]) for x in total.samples]:
-            total.samples.append(s)
+        _add_sample(total.samples, s)
 
 
 def run(tier="quick", seed=0, budget_s=60.0, jobs=1):
